@@ -33,6 +33,8 @@ GROUPS = {
     ('insert_non_slice_is_model', 'insert_non_slice_eq'), ('insert_sample_is_model', 'insert_sample_eq')]),
  'subset': ('dcmmeta.py: per-key dictionary edits of subsets (_copy_slice, _copy_sample)',
    [('copy_slice_is_model', 'copy_slice_eq'), ('copy_sample_is_model', 'copy_sample_eq')]),
+ 'header': ('dcmstack.py: the slice-timing block of DicomStack.to_nifti',
+   [('header_slice_times_is_model', 'header_slice_times_eq')]),
  'stackadd': ('dcmstack.py: DicomStack.add_dcm, _chk_congruent, _chk_close, _chk_equal',
    [('chk_congruent_is_model', 'chk_congruent_eq'), ('add_dcm_is_model', 'add_dcm_eq')]),
  'data': ('dcmstack.py: DicomStack.get_data',
@@ -40,7 +42,7 @@ GROUPS = {
     ('get_data_trim_is_model', 'get_data_trim_eq')]),
 }
 EXTRA = {'subset': 'variable [DecidableEq α]\n'}
-OPENS = {'stackadd': 'Src Stk', 'stack': 'Src Stk', 'data': 'Src Stk Wrap', 'wrapsplit': 'Src Wrap', 'wrapmerge': 'Src Wrap'}
+OPENS = {'header': 'Src Stk', 'stackadd': 'Src Stk', 'stack': 'Src Stk', 'data': 'Src Stk Wrap', 'wrapsplit': 'Src Wrap', 'wrapmerge': 'Src Wrap'}
 for grp, (srcfile, pairs) in GROUPS.items():
     mod = 'Code_' + grp
     sys.argv = ['x', 'C00', '/verif/lean/DcmVerif/Proofs/%s.lean' % mod, 'Src.', 'DcmVerif.Proofs.%s' % mod]
